@@ -13,7 +13,7 @@ CHECKS = {
             "DESIGN.md §5 C01"),
     "C02": ("exploration",
             "bounded exhaustive enumeration of index paths x container shapes x logical shapes against a reference evaluator",
-            "Every index path of every length (indexes {0,1,3,u32::MAX,*}, keys {a,b,'',zz,*}) over every container field nested up to depth 3, with every applicable comparison and wrapper (not, parentheses, any/all in both argument forms), is executed on every shape-pool context (absent, empty, singleton, ragged, non-UTF-8 key), and the same path enumeration is run over function results (identity functions on six container types); every chain of <=2 (quick) / <=3 (thorough) operators over five array-valued operands of unequal lengths is observed through any(), all() and - as the exact result vector - through an identity function; value expressions compared as values or typed absences.",
+            "Every index path of every length (indexes {0,1,3,65536,65537,u32::MAX,*}, keys {a,b,'',zz,*}) over every container field nested up to depth 3, with every applicable comparison and wrapper (not, parentheses, any/all in both argument forms), is executed on every shape-pool context (absent, empty, singleton, ragged, non-UTF-8 key), and the same path enumeration is run over function results (identity functions on six container types); every chain of <=2 (quick) / <=3 (thorough) operators over five array-valued operands of unequal lengths is observed through any(), all() and - as the exact result vector - through an identity function; value expressions compared as values or typed absences.",
             "Reference evaluator harness/src/sem.rs (path expansion, element-wise logic with truncation to the shortest operand); container values outside the shape pools are not explored.",
             "DESIGN.md §5 C02"),
     "C03": ("exploration",
@@ -48,7 +48,7 @@ CHECKS = {
             "DESIGN.md §5 C08"),
     "C09": ("exploration",
             "exhaustive enumeration of all lists up to a length bound over small ordered domains x all probes",
-            "All lists of <=4 (quick) / <=5 (thorough) items over all 29 ranges of a 7-point i64 domain (extremes, adjacent and far points) x 13 probes + absent; all lists of <=3 / <=4 items over 45 IPv4/IPv6 items (addresses, CIDRs where the range is one, explicit ranges, ::/0, mapped block) x 22 probes of both families; all byte-string lists of <=4 over 6 strings in three literal forms; all single and paired items out of 32 long byte strings (15..1000 bytes, around every power of two, two per length) x all of them as probes; long lists (all items in several orders, all-but-one); mapped and indexed left-hand sides. Oracle: exists item with lo <= x <= hi in x's family.",
+            "All lists of <=4 (quick) / <=5 (thorough) items over all 29 ranges of a 7-point i64 domain (extremes, adjacent and far points) x 13 probes + absent; all lists of <=3 / <=4 items over 45 IPv4/IPv6 items (addresses, CIDRs where the range is one, explicit ranges, ::/0, mapped block) x 22 probes of both families; all byte-string lists of <=4 over 6 strings in three literal forms; all single and paired items out of 32 long byte strings (15..1000 bytes, around every power of two, two per length) x all of them as probes; long lists (all items in several orders, all-but-one); lists of 7..33 disjoint items with ranges at the low end, in the middle and at the high end; mapped and indexed left-hand sides. Oracle: exists item with lo <= x <= hi in x's family.",
             "Endpoints outside the small domains are not explored (seed adds one).",
             "DESIGN.md §5 C09"),
     "C10": ("exploration",
